@@ -220,6 +220,23 @@ def training(rep, tier, rng):
                         combi = op.train(0.2, lmin, lmax)
                 except impl.Timeout:
                     rep.exclude('%s retraining: timeout' % name)
+            else:
+                # the same object trained again by the dimension-wise strategy with another split, then with noisy targets: the surpluses must
+                # solve the problem of the CURRENT training set (nothing fitted to an earlier one may be carried over)
+                try:
+                    with impl.quiet(), impl.watchdog(600):
+                        cb2 = op.train_spatially_adaptive(0.4, 0.9, 0.0, 60 if tier == 'quick' else 150)
+                    check_round(rep, op, cb2, name + ', second training on the same object', strategy, lam, mat, D)
+                    with impl.quiet(), impl.watchdog(600):
+                        cb3 = op.train_spatially_adaptive(0.4, 0.9, 0.0, 60 if tier == 'quick' else 150, noisy_data=True)
+                    check_round(rep, op, cb3, name + ', third training on the same object (noisy targets)', strategy, lam, mat, D)
+                    with impl.quiet(), impl.watchdog(600):
+                        combi = op.train_spatially_adaptive(0.2, 0.9, 0.0, 60 if tier == 'quick' else 150)
+                except impl.Timeout:
+                    rep.exclude('%s dimension-wise retraining: timeout' % name)
+                except Exception as ex:
+                    rep.violation('C20_NoException', {'stage': 'retrain', 'strategy': strategy, 'exception': type(ex).__name__}, {'case': name, 'exception': repr(ex)},
+                                  what='%s, dimension-wise retraining on the same object raised %r' % (name, ex))
             check_round(rep, op, combi, name, strategy, lam, mat, D)
             # coefficient optimisation variants
             for option in (1, 2, 3):
@@ -248,7 +265,7 @@ def training(rep, tier, rng):
 def run(tier, seed):
     rep = Report(PROP, tier, seed, 'model_checking')
     rng = random.Random(seed)
-    cfg = ('SPECIFICATION Spec\nCONSTANTS LAT = %d\n GRIDS <- %s\n DATASETS <- MCData1\n MAXD = 2\nINVARIANT C16_Symmetric\nINVARIANT C20_StiffSemiPositive\nCHECK_DEADLOCK FALSE\n'
+    cfg = ('SPECIFICATION Spec\nCONSTANTS LAT = %d\n GRIDS <- %s\n DATASETS <- MCData1\n MAXD = 2\n MAXPTS = 100000\nINVARIANT C16_Symmetric\nINVARIANT C20_StiffSemiPositive\nCHECK_DEADLOCK FALSE\n'
            % (LAT, 'MCGrids' if tier == 'quick' else 'MCGridsBig'))
     r, g = tlc.run('MC_HatSystems', cfg, 'c20', dump=True, timeout=3000)
     rep.tlc('HatSystems (stiffness) ' + tier, r)
@@ -256,7 +273,7 @@ def run(tier, seed):
         raise tlc.TLCError('HatSystems.tla violates %s' % r.violated)
     states = [g.states[k] for k in sorted(g.states)]
     # three dimensions: uniform grids of levels 1 and 2 (pair loops that are banded in one and two dimensions are not in three)
-    cfg3 = ('SPECIFICATION Spec\nCONSTANTS LAT = %d\n GRIDS <- MCGrids3\n DATASETS <- MCData3\n MAXD = 3\nINVARIANT C16_Symmetric\nINVARIANT C20_StiffSemiPositive\nCHECK_DEADLOCK FALSE\n' % LAT)
+    cfg3 = ('SPECIFICATION Spec\nCONSTANTS LAT = %d\n GRIDS <- MCGrids3\n DATASETS <- MCData3\n MAXD = 3\n MAXPTS = 100000\nINVARIANT C16_Symmetric\nINVARIANT C20_StiffSemiPositive\nCHECK_DEADLOCK FALSE\n' % LAT)
     r3, g3 = tlc.run('MC_HatSystems', cfg3, 'c20d3', dump=True, timeout=3000)
     rep.tlc('HatSystems (stiffness) three dimensions', r3)
     if r3.violated:
@@ -266,6 +283,18 @@ def run(tier, seed):
         st3 = g3.states[k]
         key3 = json.dumps([list(x) for x in st3['grid']])
         if st3['dim'] == 3 and key3 not in seen3:
+            seen3.add(key3)
+            states.append(st3)
+    # three dimensions, anisotropic level vectors up to level 3 (at most 21 inner points, e.g. (2,3,1), (1,2,3), (3,1,2))
+    cfg3b = ('SPECIFICATION Spec\nCONSTANTS LAT = %d\n GRIDS <- MCGrids3b\n DATASETS <- MCData3\n MAXD = 3\n MAXPTS = 21\nINVARIANT C16_Symmetric\nCHECK_DEADLOCK FALSE\n' % LAT)
+    r3b, g3b = tlc.run('MC_HatSystems', cfg3b, 'c20d3b', dump=True, timeout=3000)
+    rep.tlc('HatSystems (stiffness) three dimensions, anisotropic', r3b)
+    if r3b.violated:
+        raise tlc.TLCError('HatSystems.tla violates %s (D=3 anisotropic)' % r3b.violated)
+    for k in sorted(g3b.states):
+        st3 = g3b.states[k]
+        key3 = json.dumps([list(x) for x in st3['grid']])
+        if st3['dim'] == 3 and key3 not in seen3 and len({len(x) for x in st3['grid']}) > 1:
             seen3.add(key3)
             states.append(st3)
     matrices(rep, states, tier, rng)
